@@ -4,6 +4,8 @@ from lib.facts import norm
 from lib.rules import G, arg_desc, who_calls, agg_sites, arg_path
 from lib.tables import enumerate_paths, describe
 
+from lib.tables import strip_suffix  # noqa: E402
+
 META = dict(
     level='other',
     explanation=(
@@ -101,13 +103,13 @@ def rule_loop(ctx):
         cm = p.cond_map()
         o = p.outcome
         eqs = [(v, labs) for v, labs in cm.items() if v.startswith('cmp(') and 'subject_key_identifier' in v and 'key_id' in v]
-        par = [(v, labs) for v, labs in cm.items() if v.split('#')[0].endswith('.parent')]
+        par = [(v, labs) for v, labs in cm.items() if strip_suffix(v).endswith('.parent')]
         if o.startswith('Result::Ok'):
             n_ok += 1
             last_none = [v for v, labs in par if labs == {'None'}]
             good = False
             for v in last_none:
-                node = v.split('#')[0][:-len('.parent')]
+                node = strip_suffix(v)[:-len('.parent')]
                 for ev, elabs in eqs:
                     if (node + '.cert') in ev and 'Equal' not in elabs:
                         good = True
